@@ -82,16 +82,20 @@ def parse_harness(text):
             i = w.index("tokens")
             j = w.index("elts")
             o = kv(w[:i], 3)
-            toks = [(int(w[k]), h2d(w[k + 1]), h2d(w[k + 2])) for k in range(i + 1, j - 2, 3)]
+            toks = [(w[k], w[k + 1], h2d(w[k + 2])) for k in range(i + 1, j - 2, 3)]
             els = [(unhex(w[k]), h2d(w[k + 1])) for k in range(j + 1, len(w) - 1, 2)]
             cur["phases"].append({"name": unhex(w[2]), "constraint": int(o["constraint"]), "force": int(o["force"]),
                                   "alk": h2d(o["alk"]), "formula": unhex(o["formula"]), "tokens": toks, "elts": els})
         elif t == "REDOX":
             i = w.index("tokens")
             o = kv(w[:i], 3)
-            toks = [(int(w[k]), h2d(w[k + 1])) for k in range(i + 1, len(w) - 1, 2)]
+            toks = [(w[k], w[k + 1], h2d(w[k + 2])) for k in range(i + 1, len(w) - 2, 3)]
             cur["redox"].append({"name": unhex(w[2]), "elt": int(o["elt"]), "coef": h2d(o["coef"]), "alk": h2d(o["alk"]),
                                  "salk": h2d(o["salk"]), "tokens": toks})
+        elif t in ("ISOELT", "ISOUNK", "SOLISO", "PHISO"):
+            cur.setdefault(t.lower(), []).append(w[1:])
+        elif t == "MASTER":
+            cur.setdefault("masters", []).append((w[1], h2d(w[2]), int(w[3]), int(w[4])))
         elif t == "COLNAME":
             cur["colnames"].append(unhex(w[2]))
         elif t == "ROW":
@@ -180,7 +184,13 @@ def read_declared(text):
         i0 = next(i for i, l in enumerate(lines) if l.split()[0].upper().startswith("INVERSE_MODELING"))
     except StopIteration:
         return None
-    d = {"solns": [], "unc": [], "entries": [], "ph": None}
+    d = {"solns": [], "unc": [], "entries": [], "ph": None, "phases": [], "range": 0, "range_max": 1000.0, "minimal": 0,
+         "tolerance": 1e-10, "mineral_water": 1, "mp": 0, "mp_tolerance": 1e-12, "u_water": 0.0, "force_solns": []}
+
+    def tf(rest, default=True):
+        if not rest:
+            return default
+        return rest[0][0] in "tT" if rest[0][0] in "tTfF" else default
     cur = None
     keywords = ("END", "SOLUTION", "PHASES", "SELECTED_OUTPUT", "USER_PUNCH", "EXCHANGE_SPECIES", "TITLE", "REACTION", "MIX", "USE",
                 "SAVE", "INVERSE_MODELING", "SOLUTION_SPREAD", "KNOBS", "PRINT")
@@ -202,8 +212,50 @@ def read_declared(text):
                 w = rest
                 if not w:
                     continue
-            else:
+            elif opt in ("phases", "phase", "phase_data"):
+                cur = "phase"
+                w = rest
+                if not w:
+                    continue
+            elif opt == "isotopes":
+                cur = "iso"
                 continue
+            else:
+                nums = _numbers(rest)
+                if opt in ("range", "ranges"):
+                    d["range"] = 1
+                    if nums:
+                        d["range_max"] = nums[0]
+                elif opt in ("minimal", "minimum"):
+                    d["minimal"] = 1
+                elif opt == "tolerance" and nums:
+                    d["tolerance"] = nums[0]
+                elif opt in ("u_water", "uncertainty_water") and nums:
+                    d["u_water"] = nums[0]
+                elif opt == "mineral_water":
+                    d["mineral_water"] = 1 if tf(rest) else 0
+                elif opt == "multiple_precision":
+                    d["mp"] = 1 if tf(rest) else 0
+                elif opt == "mp_tolerance" and nums:
+                    d["mp_tolerance"] = abs(nums[0])
+                elif opt in ("force", "force_solution", "force_solutions"):
+                    d["force_solns"] = [1 if x[0] in "tT" else 0 for x in rest if x[0] in "tTfF"]
+                continue
+        if cur == "phase" and w:
+            con, force, k = 0, 0, 1
+            while k < len(w):
+                tk = w[k]
+                if tk[0].lower() == "p":
+                    con = -1
+                elif tk[0].lower() == "d":
+                    con = 1
+                elif tk[0] == "f":
+                    force = 1
+                elif tk[0].isdigit() or (tk[0] in "+-." and len(tk) > 1 and (tk[1].isdigit() or tk[1] == ".")):
+                    k += 2                      # isotope name, ratio, uncertainty
+                k += 1
+            d["phases"].append((w[0], con, force))
+            continue
         if cur == "bal" and w:
             name = w[0].replace("(+", "(")
             vals = _numbers(w[1:])
@@ -214,6 +266,73 @@ def read_declared(text):
     if not d["solns"]:
         d["solns"] = [1, 2]
     return d
+
+
+def read_isotope_decl(text):
+    """-isotopes entries of the first INVERSE_MODELING block [(number, name, [unc…])] and the -i / -isotope lines of every
+    SOLUTION n block {n: {"13C": unc or None}} — pure text reading"""
+    ents, sols = [], {}
+    sect, cur, sol = None, None, None
+    for raw in text.split("\n"):
+        l = raw.split("#")[0].strip()
+        if not l:
+            continue
+        w = l.split()
+        up = w[0].upper()
+        if up == "SOLUTION":
+            sect, sol = "SOL", int(re.match(r"-?\d+", w[1]).group(0)) if len(w) > 1 and re.match(r"-?\d+", w[1]) else 1
+            sols.setdefault(sol, {})
+            continue
+        if up.startswith("INVERSE_MODELING"):
+            if sect == "INVDONE":
+                break
+            sect, cur = "INV", None
+            continue
+        if up in ("END", "PHASES", "EXCHANGE_SPECIES", "TITLE", "SELECTED_OUTPUT", "USER_PUNCH", "REACTION", "MIX", "USE", "SAVE", "SOLUTION_SPREAD"):
+            sect = "INVDONE" if sect == "INV" else None
+            continue
+        if sect == "SOL" and w[0].lower() in ("-i", "-isotope") and len(w) >= 3:
+            sols[sol][w[1]] = float(w[3]) if len(w) > 3 else None
+        elif sect == "INV":
+            if w[0].startswith("-"):
+                opt = next((o for o in INV_OPTS if o.startswith(w[0][1:].lower())), None)
+                cur = "iso" if opt == "isotopes" else None
+                w = w[1:] if cur == "iso" else []
+            if cur == "iso" and w:
+                m = re.match(r"(\d+(?:\.\d+)?)(.+)", w[0])
+                if m:
+                    ents.append((float(m.group(1)), m.group(2), _numbers(w[1:])))
+    return ents, sols
+
+
+def declared_iso_unc(text, su):
+    """expected x_ratio_uncertainty of every solution isotope datum the inverse model uses (check_isotopes semantics)"""
+    ents, sols = read_isotope_decl(text)
+    out = []
+    for w in su.get("soliso", []):
+        q, master, prim, num = int(w[0]), unhex(w[1]), unhex(w[2]), h2d(w[3])
+        got = h2d(w[6])
+        pick = None
+        for nmb, name, lst in ents:                       # a valence-state entry wins, else the (last) element-wide one
+            if name.lower() == master.lower():
+                pick = lst
+                break
+            if name.lower() == prim.lower():
+                pick = lst
+        if pick is None:
+            continue                                      # datum not used by the inverse model
+        if q < len(pick):
+            exp = pick[q]
+        elif pick:
+            exp = pick[-1]
+        else:
+            sn = su["solns"][q]["n"]
+            dd = sols.get(sn, {})
+            key = next((k for k in ("%g%s" % (num, master), "%g%s" % (num, prim)) if k in dd), None)
+            exp = dd.get(key) if key else None
+        if exp is not None:
+            out.append((q, master, num, got, exp))
+    return out
 
 
 def pad(vals, ns, default):
@@ -266,7 +385,7 @@ def declared_uncertainties(text, su):
     return unc, ph, " ".join(cmd)
 
 # ----------------------------------------------------------------------------------------------- pmodel input
-def problem_lines(su, totals_override=None, unc_override=None, ph_override=None):
+def problem_lines(su, totals_override=None, unc_override=None, ph_override=None, con_override=None):
     """parsed problem of one set-up → lines for `pmodel inverse`.
     totals_override: per solution a dict elt-name → moles (independent speciation) and "Alkalinity" """
     o = su["opts"]
@@ -276,6 +395,16 @@ def problem_lines(su, totals_override=None, unc_override=None, ph_override=None)
     icarb = next((i for i, e in enumerate(elts) if e["isC4"]), -1)
     lines = ["problem",
              "opts %s %d %s %d %d %d %d" % (d2h(o["toler"]), o["mineral_water"], d2h(o["water_unc"]), o["carbon"], ialk, icarb, o["range"])]
+    for nm, coef, ish, isw in su.get("masters", []):
+        lines.append("master %s %s %d %d" % (nm, d2h(coef), ish, isw))
+    for w in su.get("isoelt", []):
+        lines.append("isoelt %s %s %s %s" % (w[1], w[2], w[3], w[4]))
+    for w in su.get("isounk", []):
+        lines.append("isounk %s %s" % (w[1], w[2]))
+    for w in su.get("soliso", []):
+        lines.append("soliso %s %s %s %s %s %s %s" % tuple(w[:7]))
+    for w in su.get("phiso", []):
+        lines.append("phiso %s %s %s %s %s %s %s" % tuple(w[:7]))
     for q, s in enumerate(su["solns"]):
         T = [0.0] * ne
         if totals_override is not None:
@@ -290,13 +419,14 @@ def problem_lines(su, totals_override=None, unc_override=None, ph_override=None)
                                               d2h(s["dalk_dc"]), " ".join(d2h(t) for t in T)))
     for k, e in enumerate(elts):
         uu = unc_override[k] if unc_override is not None else e["unc"]
-        lines.append("elt %d %d %d %s %s" % (e["isE"], e["isAlk"], e["alkName"], d2h(e["zalk"]), " ".join(d2h(u) for u in uu)))
-    for p in su["phases"]:
-        lines.append("phase %d %d %s %s" % (p["constraint"], p["force"], d2h(p["alk"]),
-                                            " ".join("%d %s %s" % (r, d2h(c), d2h(mc)) for r, c, mc in p["tokens"])))
+        lines.append("elt %s %d %d %d %s %s" % (e["name"].encode().hex() or "-", e["isE"], e["isAlk"], e["alkName"], d2h(e["zalk"]), " ".join(d2h(u) for u in uu)))
+    for ip, p in enumerate(su["phases"]):
+        lines.append("phase %d %d %s %s" % (con_override[ip][0] if con_override else p["constraint"],
+                                            con_override[ip][1] if con_override else p["force"], d2h(p["alk"]),
+                                            " ".join("%s %s %s" % (a, b, d2h(c)) for a, b, c in p["tokens"])))
     for r in su["redox"]:
         lines.append("redox %s %s %s %s" % (d2h(r["coef"]), d2h(r["alk"]), d2h(r["salk"]),
-                                            " ".join("%d %s" % (row, d2h(c)) for row, c in r["tokens"])))
+                                            " ".join("%s %s %s" % (a, b, d2h(c)) for a, b, c in r["tokens"])))
     return lines
 
 
@@ -387,7 +517,7 @@ def bound_of(T, u, toler):
     return 0.0 if c < toler else c
 
 
-def direct_oracle(su, model, totals, tol_print, unc=None):
+def direct_oracle(su, model, totals, tol_print, unc=None, con=None):
     """the property evaluated on the punched values only (fractions, transfers, min, max) with independent totals and
     formula stoichiometry: per chemical element an adjustment within the declared uncertainties must exist"""
     bad = []
@@ -410,9 +540,10 @@ def direct_oracle(su, model, totals, tol_print, unc=None):
     if abs(alpha[ns - 1] - 1) > slack(1):
         bad.append("final fraction %g" % alpha[ns - 1])
     for i, ph in enumerate(su["phases"]):
-        if ph["constraint"] > 0 and x[i] < -slack(x[i]):
+        cc = con[i][0] if con is not None else ph["constraint"]
+        if cc > 0 and x[i] < -slack(x[i]):
             bad.append("dissolve-only %s %g" % (ph["name"], x[i]))
-        if ph["constraint"] < 0 and x[i] > slack(x[i]):
+        if cc < 0 and x[i] > slack(x[i]):
             bad.append("precipitate-only %s %g" % (ph["name"], x[i]))
     if o["range"]:
         for nm, v, lo, hi in [("soln%d" % q, alpha[q], amin[q], amax[q]) for q in range(ns)] + \
@@ -501,15 +632,14 @@ def eval_case(ctx, exe, case, oracle_bits=11):
     out["stats"].update(nsol=o["nsol"], nelt=o["nelt"], nphase=o["nphase"], nredox=o["nredox"], minimal=o["minimal"], range=o["range"],
                         mp=o["mp"], nmodels=len(su["models"]), rc=res["rc"], oracle=su["oracle"] is not None, toler=o["toler"],
                         cl1mp=o.get("cl1mp", 0))
-    if o["nisotopes"]:
-        out["status"] = "isotopes"
-        return out
+    out["stats"]["isotopes"] = o["nisotopes"]
     if res["rc"] != 0:
         out["status"] = "run-error"          # outside "completes without error": set-up is still compared
     # ---- tie A: matrix
     base = problem_lines(su)
     totals = indep_totals(res, su)
     cmds = list(base) + ["matrix"]
+    sat_cmds = []
     toler = o["toler"]
     t1 = max(1e-8, 1e4 * toler)
     t2 = max(1e-6, 1e4 * toler)
@@ -526,8 +656,31 @@ def eval_case(ctx, exe, case, oracle_bits=11):
         if bad or badph:
             out["corr"].append({"what": "uncertainties stored by tidy_inverse differ from the limits declared in the input text",
                                 "rows": [list(map(str, b)) for b in bad[:8]], "ph": badph[:4]})
-    if totals is not None or dunc is not None:
-        cmds += problem_lines(su, totals, dunc, dph)
+    if o["nisotopes"]:
+        badi = [x for x in declared_iso_unc(case["input"], su) if x[3] != x[4]]
+        out["stats"]["iso_unc_read"] = True
+        if badi:
+            out["corr"].append({"what": "isotope-ratio uncertainties set by check_isotopes differ from what the input text declares",
+                                "rows": [list(map(str, b)) for b in badi[:6]]})
+    dcon = None
+    dd = read_declared(case["input"])
+    if dd is not None and len(dd["phases"]) == len(su["phases"]):
+        dcon = [(c, f) for _, c, f in dd["phases"]]
+        badp = [(ph["name"], ph["constraint"], ph["force"], dp) for ph, dp in zip(su["phases"], dd["phases"])
+                if ph["name"].lower() != dp[0].lower() or ph["constraint"] != dp[1] or ph["force"] != dp[2]]
+        eff_tol = dd["mp_tolerance"] if dd["mp"] else dd["tolerance"]
+        fs = (dd["force_solns"] + [0] * o["nsol"])[:o["nsol"]]
+        bado = [(k, o[k], v) for k, v in (("range", dd["range"]), ("minimal", dd["minimal"]), ("mineral_water", dd["mineral_water"]),
+                                           ("mp", dd["mp"]), ("range_max", dd["range_max"]), ("water_unc", dd["u_water"]), ("toler", eff_tol))
+                if o[k] != v]
+        badf = [(q, sq["force"], fs[q]) for q, sq in enumerate(su["solns"]) if sq and sq["force"] != fs[q]]
+        if badp or bado or badf:
+            out["corr"].append({"what": "phase constraints / options stored by read_inverse differ from what the input text declares",
+                                "phases": [list(map(str, b)) for b in badp[:6]], "options": [list(map(str, b)) for b in bado], "force_solns": badf})
+    elif dd is not None:
+        out["stats"]["declared_phases_unread"] = True
+    if totals is not None or dunc is not None or dcon is not None:
+        cmds += problem_lines(su, totals, dunc, dph, dcon)
     capped = {}
     for k, m in enumerate(su["models"]):
         mn, mx = list(m["MIN"]), list(m["MAX"])
@@ -542,6 +695,15 @@ def eval_case(ctx, exe, case, oracle_bits=11):
         vec = "X %s MIN %s MAX %s" % (" ".join(map(d2h, m["X"])), " ".join(map(d2h, mn)), " ".join(map(d2h, mx)))
         cmds.append("check %s %s" % (d2h(t1), vec))
         cmds.append("check %s %s" % (d2h(t2), vec))
+        mask = m["bits"]
+        for i, ph in enumerate(su["phases"]):
+            if ph["force"]:
+                mask |= 1 << i
+        for q, sq in enumerate(su["solns"]):
+            if sq and sq["force"]:
+                mask |= 1 << (o["nphase"] + q)
+        # feasibility of the reported vector for the LP of (its set ∪ forced): Lean satB / zeroOutsideB on the ENGINE's problem
+        sat_cmds.append("sat %s %d X %s" % (d2h(max(10 * toler, 1e-13)), mask, " ".join(map(d2h, m["X"]))))
     forced = 0
     for i, ph in enumerate(su["phases"]):
         if ph["force"]:
@@ -551,7 +713,10 @@ def eval_case(ctx, exe, case, oracle_bits=11):
             forced |= 1 << (o["nphase"] + q)
     if su["oracle"] is not None and not su["oracle_aborted"]:
         cmds.append("search %d %d %d %d %d %s" % (o["nphase"], o["nsol"], o["minimal"], o["range"], forced, " ".join(su["oracle"])))
+    k0 = cmds.index("matrix") + 1
+    cmds = cmds[:k0] + sat_cmds + cmds[k0:]
     mout = pmodel_retry(ctx, "\n".join(cmds) + "\n")
+    sats = [l.split() for l in mout if l.startswith("SAT")]
     diffs = compare_matrix(su, mout)
     ul = next((l for l in mout if l.startswith("UNC")), None)
     if decl is not None and ul is not None:
@@ -634,12 +799,14 @@ def eval_case(ctx, exe, case, oracle_bits=11):
         if nz != m["bits"]:
             out["corr"].append({"what": "saved model bits differ from the non-zero pattern of the reported vector", "bits": m["bits"], "nz": nz})
         mcorr = any(c.get("model") == k for c in out["corr"]) or any("cell" in c for c in out["corr"])
-        for b in direct_oracle(su, m, totals, tol_print, dunc):
+        for b in direct_oracle(su, m, totals, tol_print, dunc, dcon):
             kind = "range" if b.startswith("range") else ("sign" if "-only" in b else ("alpha" if "fraction" in b else "element"))
             mv.append({"kind": kind, "model": k, "text": b})
-        if not m["selfcheck"] and not diffs and not mcorr:
-            # the vector handed to print_model fails the engine's own (never called) test_cl1_solution against the real
-            # my_array, and the matrix itself agrees with the model: the defect is in accepting the LP result
+        lean_ok = k < len(sats) and sats[k][1:] == ["1", "1"]
+        out["stats"]["selfcheck_agree"] = out["stats"].get("selfcheck_agree", 0) + (1 if bool(m["selfcheck"]) == lean_ok else 0)
+        if not lean_ok and not diffs and not mcorr:
+            # the vector handed to print_model is not feasible for the LP of its own set (Lean satB / zeroOutsideB at 10*toler on
+            # the set-up matrix, which agrees with my_array); the engine's never-called test_cl1_solution is recorded alongside
             if mv:
                 out["findings"].append({"key": "cl1-unverified", "model": k, "bits": m["bits"], "kode_last_lp": m["kode"],
                                         "text": "; ".join(v["text"] for v in mv)[:300]})
@@ -650,9 +817,11 @@ def eval_case(ctx, exe, case, oracle_bits=11):
         # known class: the range LP failed (cl1 kode != 0 inside range())
         if rerr[k] is None and any(v["kind"] == "range" for v in mv):
             out["corr"].append({"what": "printed output has no table for this model; range errors cannot be attributed", "model": k})
-        if o["range"] and not rerr[k] and rerr[k] is not None and m["selfcheck"] and k not in capped:
+        if o["range"] and not rerr[k] and rerr[k] is not None and lean_ok and k not in capped:
             out["stats"]["range_judged"] = out["stats"].get("range_judged", 0) + 1
-        if not rerr[k] and rerr[k] is not None and m["selfcheck"] and not diffs and not mcorr and any(v["kind"] == "range" for v in mv):
+        # theorem range_silent_criterion: the vector is feasible (lean_ok) and |value| <= range_max (not capped), so a reported
+        # minimum above / maximum below the value is provably not an optimum of the range LP
+        if not rerr[k] and rerr[k] is not None and lean_ok and not diffs and not mcorr and any(v["kind"] == "range" for v in mv):
             out["stats"]["range_silent"] = out["stats"].get("range_silent", 0) + 1
             out["findings"].append({"key": "range-silent", "model": k, "bits": m["bits"],
                                     "text": "; ".join(v["text"] for v in mv if v["kind"] == "range")[:300]})
@@ -789,8 +958,13 @@ def run(ctx):
     if not ok:
         n = max(n, 6000)
     cases = seed_cases()
+    ex18 = vlib.REPO / "phreeqc3-examples" / "ex18"
+    ex18_text = ex18.read_text(errors="replace") if ex18.exists() else None
     for i in range(n):
-        cases.append(gen.gen_problem(ctx.rng, big=(i % 5 == 0)))
+        if ex18_text is not None and i % 12 == 5:
+            cases.append(gen.gen_iso(ctx.rng, ex18_text))
+        else:
+            cases.append(gen.gen_problem(ctx.rng, big=(i % 5 == 0)))
     hist = {"status": {}, "scenario": {}, "nphase": {}, "nsol": {}, "models_per_case": {}, "flags": {}, "noise": {}, "toler": {}}
 
     def bump(h, k):
@@ -800,7 +974,7 @@ def run(ctx):
         futs = [ex.submit(eval_case, ctx, exe, c, 11 if ctx.tier == "quick" else 12) for c in cases]
         for c, f in zip(cases, futs):
             results.append((c, f.result()))
-    nmodels = nmat = nsearch = nrangeerr = noracle_ok = nindep = nunver = njudged = nsilent = 0
+    nmodels = nmat = nsearch = nrangeerr = noracle_ok = nindep = nunver = njudged = nsilent = niso = nisomodels = 0
     first_silent = first_unver = None
     nontrivial = set()
     corr_broken = []
@@ -828,6 +1002,9 @@ def run(ctx):
         nindep += 1 if "totals_reldiff" in st else 0
         nrangeerr += st.get("range_lp_errors", 0)
         nunver += st.get("unverified_models", 0)
+        if st.get("isotopes"):
+            niso += 1
+            nisomodels += r["nmodels"]
         njudged += st.get("range_judged", 0)
         nsilent += st.get("range_silent", 0)
         if st.get("range_silent") and first_silent is None:
@@ -876,6 +1053,8 @@ def run(ctx):
     ctx.cov["problems_with_independent_totals"] = nindep
     ctx.cov["range_lp_error_messages"] = nrangeerr
     ctx.cov["models_failing_engine_selfcheck"] = nunver
+    ctx.cov["isotope_problems"] = niso
+    ctx.cov["isotope_models_checked"] = nisomodels
     ctx.cov["range_models_judged"] = njudged
     ctx.cov["range_models_silently_not_bracketing"] = nsilent
     # the two solver-accuracy classes are rare on the unchanged tree (< 10 % of the judged models in every seed tried);
